@@ -74,7 +74,7 @@ trait Coll {
     fn get(&self, _i: usize) -> Option<u64> {
         unreachable!()
     }
-    fn iter(&self) -> Vec<(usize, u64)>;
+    fn iter(&mut self) -> Vec<(usize, u64)>;
     fn len(&self) -> usize {
         unreachable!()
     }
@@ -136,7 +136,7 @@ impl Coll for Types {
         let t = self.m.types.get(self.ids[i].unwrap());
         self.vals[&(t.params().to_vec(), t.results().to_vec())]
     }
-    fn iter(&self) -> Vec<(usize, u64)> {
+    fn iter(&mut self) -> Vec<(usize, u64)> {
         self.m.types.iter().map(|t| (t.id().index(), self.vals[&(t.params().to_vec(), t.results().to_vec())])).collect()
     }
     fn find(&self, v: u64) -> Option<usize> {
@@ -148,7 +148,9 @@ impl Coll for Types {
 macro_rules! plain_coll {
     (@len $s:ident, $field:ident, true) => { $s.m.memories.len() };
     (@len $s:ident, $field:ident, false) => { unreachable!() };
-    ($ty:ident, $name:expr, $idty:ty, $field:ident, has_len = $has_len:tt,
+    (@itermut $s:ident, $field:ident, $item:ident, $payload:expr, true) => { Some($s.m.$field.iter_mut().map(|x| { let $item: &_ = &*x; ($item.id().index(), $payload) }).collect::<Vec<(usize, u64)>>()) };
+    (@itermut $s:ident, $field:ident, $item:ident, $payload:expr, false) => { None::<Vec<(usize, u64)>> };
+    ($ty:ident, $name:expr, $idty:ty, $field:ident, has_len = $has_len:tt, iter_mut = $has_im:tt,
      add = |$m:ident, $v:ident| $add:expr,
      payload = |$item:ident| $payload:expr) => {
         struct $ty {
@@ -182,8 +184,18 @@ macro_rules! plain_coll {
                 let $item = self.m.$field.get(self.ids[i].unwrap());
                 $payload
             }
-            fn iter(&self) -> Vec<(usize, u64)> {
-                self.m.$field.iter().map(|$item| ($item.id().index(), $payload)).collect()
+            fn iter(&mut self) -> Vec<(usize, u64)> {
+                let shared: Vec<(usize, u64)> = self.m.$field.iter().map(|$item| ($item.id().index(), $payload)).collect();
+                // the mutable iterator must walk exactly the same live items
+                if let Some(exclusive) = plain_coll!(@itermut self, $field, $item, $payload, $has_im) {
+                    if exclusive != shared {
+                        let mut both = shared.clone();
+                        both.push((usize::MAX, exclusive.len() as u64));
+                        both.extend(exclusive);
+                        return both;
+                    }
+                }
+                shared
             }
             fn len(&self) -> usize {
                 plain_coll!(@len self, $field, $has_len)
@@ -192,28 +204,28 @@ macro_rules! plain_coll {
     };
 }
 
-plain_coll!(Memories, "memories", MemoryId, memories, has_len = true,
+plain_coll!(Memories, "memories", MemoryId, memories, has_len = true, iter_mut = true,
     add = |m, v| m.memories.add_local(false, false, v, None, None),
     payload = |x| x.initial);
-plain_coll!(Tables, "tables", TableId, tables, has_len = false,
+plain_coll!(Tables, "tables", TableId, tables, has_len = false, iter_mut = true,
     add = |m, v| m.tables.add_local(false, v, None, RefType::Funcref),
     payload = |x| x.initial);
-plain_coll!(Globals, "globals", GlobalId, globals, has_len = false,
+plain_coll!(Globals, "globals", GlobalId, globals, has_len = false, iter_mut = false,
     add = |m, v| m.globals.add_local(ValType::I64, true, false, ConstExpr::Value(ir::Value::I64(v as i64))),
     payload = |x| match x.kind { GlobalKind::Local(ConstExpr::Value(ir::Value::I64(v))) => v as u64, _ => u64::MAX });
-plain_coll!(Datas, "data", DataId, data, has_len = false,
+plain_coll!(Datas, "data", DataId, data, has_len = false, iter_mut = false,
     add = |m, v| m.data.add(DataKind::Passive, v.to_le_bytes().to_vec()),
     payload = |x| { let mut b = [0u8; 8]; if x.value.len() == 8 { b.copy_from_slice(&x.value); u64::from_le_bytes(b) } else { u64::MAX } });
-plain_coll!(Elements, "elements", ElementId, elements, has_len = false,
+plain_coll!(Elements, "elements", ElementId, elements, has_len = false, iter_mut = true,
     add = |m, v| m.elements.add(ElementKind::Passive, ElementItems::Expressions(RefType::Funcref, vec![ConstExpr::RefNull(RefType::Funcref); v as usize])),
     payload = |x| match &x.items { ElementItems::Expressions(_, e) => e.len() as u64, ElementItems::Functions(f) => 1000 + f.len() as u64 });
-plain_coll!(Exports, "exports", ExportId, exports, has_len = false,
+plain_coll!(Exports, "exports", ExportId, exports, has_len = false, iter_mut = true,
     add = |m, v| { let first = m.memories.iter().next().map(|x| x.id()); let mem = match first { Some(x) => x, None => m.memories.add_local(false, false, 1, None, None) }; m.exports.add(&v.to_string(), mem) },
     payload = |x| x.name.parse::<u64>().unwrap_or(u64::MAX));
-plain_coll!(Imports, "imports", ImportId, imports, has_len = false,
+plain_coll!(Imports, "imports", ImportId, imports, has_len = false, iter_mut = true,
     add = |m, v| m.add_import_global("env", &v.to_string(), ValType::I32, false, false).1,
     payload = |x| x.name.parse::<u64>().unwrap_or(u64::MAX));
-plain_coll!(Funcs, "functions", FunctionId, funcs, has_len = false,
+plain_coll!(Funcs, "functions", FunctionId, funcs, has_len = false, iter_mut = true,
     add = |m, v| { let b = FunctionBuilder::new(&mut m.types, &[], &[]); let id = b.finish(vec![], &mut m.funcs); m.funcs.get_mut(id).name = Some(v.to_string()); id },
     payload = |x| x.name.as_ref().and_then(|n| n.parse::<u64>().ok()).unwrap_or(u64::MAX));
 
@@ -250,7 +262,7 @@ impl Coll for Customs {
     fn get(&self, i: usize) -> Option<u64> {
         self.m.customs.get(self.ids[i].unwrap()).map(|s| s.name.parse::<u64>().unwrap())
     }
-    fn iter(&self) -> Vec<(usize, u64)> {
+    fn iter(&mut self) -> Vec<(usize, u64)> {
         // ids are opaque here: identify each live section by position among the ids we hold
         let mut out = vec![];
         for (_uid, s) in self.m.customs.iter() {
